@@ -40,7 +40,7 @@ LEVEL_TEXT = ("Theorems (Coq): for every well-formed Oscar-family or JETSCAPE (h
               "label (equal to the original labels whenever no event is dropped); sigmaGen of any two successful loads of one file agree. "
               "The particle-object storer has the analogous theorems on its own model (slice, single = range, counts, select-then-filter with "
               "a possibly raising filter, invalid selectors).  All three models are run against the real constructors for every selector.")
-LEVEL_NOTE = ("Hand-written loader models tied by correspondence (not generated from the source).  Under a constructor filter the count rows "
+LEVEL_NOTE = ("Hand-written loader models run side by side with the real loaders AND proved equal to the regenerated method bodies of the three loaders (see SOURCE TIES below).  Under a constructor filter the count rows "
               "after a DROPPED event carry decremented labels (the code relabels consecutively, as the filter methods do): the theorems state "
               "exactly that, so 'original labels' is proved for the unfiltered selection and for filtered selections that drop no event.  "
               "Oscar: events=k together with a filter has no theorem of its own (range-with-filter and unfiltered single = range only).  "
